@@ -533,6 +533,7 @@ func runL2(ctx context.Context, t fataler, r *evid.Recorder, c *GenCase) {
 		if c.FlagWKT != "" {
 			exp.includeWKT = c.FlagWKT == "true"
 		}
+		exp.partial = code != 0
 		if len(reqs) == 0 {
 			if code == 0 {
 				r.Fail(t, "not-generated", fmt.Sprintf("%s: exit 0 but plugin entry %s never received a request", cmd, p.Opt), c)
@@ -626,6 +627,7 @@ func runL2(ctx context.Context, t fataler, r *evid.Recorder, c *GenCase) {
 		// "nothing written on error" are asserted.
 		r.Class("l2:archive-out-directory-missing")
 		if code != 0 {
+			r.Class("l2:archive-out-directory-missing:run-failed")
 			if len(touched) > 0 {
 				r.Fail(t, "partial-output-on-error", fmt.Sprintf("%s: exit %d but files of this run were written: %v", cmd, code, rel(touched)), c)
 			}
@@ -892,6 +894,16 @@ func messageNames(c *GenCase) []string {
 	var out []string
 	for _, m := range c.Src.Mods {
 		for _, p := range protogen.SortedPaths(c.Src.Files[m.Dir]) {
+			if len(c.Paths) > 0 {
+				// types of targeted files (a filter naming a type outside the image is the documented error)
+				in := false
+				for _, tp := range c.Paths {
+					in = in || dirOf(p) == tp || strings.HasPrefix(p, tp+"/")
+				}
+				if !in && evidRare(p) {
+					continue
+				}
+			}
 			txt := c.Src.Files[m.Dir][p]
 			pkg := ""
 			for _, line := range strings.Split(txt, "\n") {
@@ -907,10 +919,13 @@ func messageNames(c *GenCase) []string {
 	return out
 }
 
+// evidRare keeps one in eight non-targeted files as a source of type names (deterministic per path).
+func evidRare(p string) bool { return evidHash(p)%8 != 0 }
+
 func genL2(t *rapid.T) *GenCase {
 	c := &GenCase{Kind: "l2", Src: genSrc(t, false)}
 	c.Version = []string{"v2", "v2", "v2", "v1"}[rapid.IntRange(0, 3).Draw(t, "version")]
-	outsPool := []string{"gen", "gen/go", "out2", "deep/a/b", "gen.zip", "lib.jar", "./gen", "gen/", "gen", "out2", "arch/sub.zip", absToken + "/area/gen"}
+	outsPool := []string{"gen", "gen/go", "out2", "deep/a/b", "gen.zip", "lib.jar", "./gen", "gen/", "gen", "out2", "arch/sub.zip", "gen", "gen/go", "out2", "deep/a/b", "gen.zip", "lib.jar", "./gen", "gen/", "gen", "out2", "arch/sub.zip", absToken + "/area/gen"}
 	n := rapid.IntRange(1, 4).Draw(t, "nplugins")
 	c.Existing = map[string]string{"gen/existing.txt": "old\n// @@protoc_insertion_point(scope)\n", "out2/existing.txt": "old\n// @@protoc_insertion_point(scope)\n", "unrelated/keep.txt": "keep\n"}
 	paths := c.Src.allPaths()
@@ -1008,7 +1023,61 @@ func genL2(t *rapid.T) *GenCase {
 		}
 		p.Files = keep
 	}
+	// Open known finding duplicate-path-accepted:abs-vs-relative-out: the same directory reached through
+	// two spellings of `out` (one absolute) with both plugins producing the same file. The random search
+	// does not dwell on it (TestKnownFindings runs the directed case every time): respell relative, which
+	// turns the case into the plain duplicate that must be an error.
+	for i := range c.Plugins {
+		if !strings.HasPrefix(c.Plugins[i].Out, absToken) {
+			continue
+		}
+		clash := false
+		for j := range c.Plugins {
+			if i == j || outKey(c.Plugins[j].Out) != outKey(c.Plugins[i].Out) || strings.HasPrefix(c.Plugins[j].Out, absToken) {
+				continue
+			}
+			for _, a := range c.Plugins[i].Files {
+				for _, b := range c.Plugins[j].Files {
+					ca, oka := cleanName(a.Name)
+					cb, okb := cleanName(b.Name)
+					if oka && okb && ca == cb && a.InsertionPoint == "" && b.InsertionPoint == "" {
+						clash = true
+					}
+				}
+			}
+		}
+		if clash {
+			evid.R().Excluded(knownAbsVsRel)
+			c.Plugins[i].Out = outKey(c.Plugins[i].Out)
+		}
+	}
 	return c
+}
+
+const knownAbsVsRel = "duplicate-path-accepted:abs-vs-relative-out"
+
+// TestKnownFindings runs one minimal directed case per listed open finding, so that a finding that is
+// still present is reported on every run and silently stops being reported once repaired.
+func TestKnownFindings(t *testing.T) {
+	r := evid.R()
+	defer r.Begin(t)()
+	if !r.Mine(0) {
+		return
+	}
+	c := &GenCase{
+		Kind:    "l2",
+		Version: "v2",
+		Src: Src{
+			Mods:  []Mod{{Dir: "mod0"}},
+			Files: map[string]map[string]string{"mod0": {"a/v1/a.proto": "syntax = \"proto3\";\npackage a.v1;\nmessage A {\n  string x = 1;\n}\n"}},
+		},
+		Plugins: []Plugin{
+			{Opt: "p0", Out: absToken + "/area/gen", Strategy: "all", Files: []ScriptFile{{Name: "x.txt", Content: "one\n"}}},
+			{Opt: "p1", Out: "gen", Strategy: "all", Files: []ScriptFile{{Name: "x.txt", Content: "two\n"}}},
+		},
+	}
+	r.Class("directed-known-finding-regression")
+	runL2(context.Background(), t, r, c)
 }
 
 func TestGenerate(t *testing.T) {
